@@ -144,7 +144,7 @@ package streamfilter
 //@   ensures[node-unchanged] node.userFlows == old(node.userFlows)
 
 //@ func (*FilterNode).getSystemFlow
-//@   prop C03, C04
+//@   prop C03, C04, C02
 //@   opaque ownFilterOK, plain, unsampled
 //@   results selected, any
 //@   requires nodeOK(node)
@@ -168,7 +168,7 @@ package streamfilter
 // every (plain, unsampled) flow of the node whose own filter accepts it is in its list; nil exactly when all are empty.
 //@ ghost func nodeOK(n *FilterNode) bool = forall(j, 0, len(n.userFlows), fltOK(n.userFlows[j])) && forall(j, 0, len(n.systemFlowStart), fltOK(n.systemFlowStart[j])) && forall(j, 0, len(n.systemFlowEnd), fltOK(n.systemFlowEnd[j]))
 //@ func (*FilterNode).getFlow
-//@   prop C03, C04
+//@   prop C03, C04, C02
 //@   opaque ownFilterOK, plain, unsampled
 //@   results res, found
 //@   requires nodeOK(node)
@@ -191,7 +191,7 @@ package streamfilter
 //@ ghost func flagsOK(r *FilterResult) bool = (r.UserFlow.FlowValid <==> len(r.UserFlow.Flow) > 0) && (r.SystemFlowStart.FlowValid <==> len(r.SystemFlowStart.Flow) > 0) && (r.SystemFlowEnd.FlowValid <==> len(r.SystemFlowEnd.Flow) > 0)
 //@ ghost func oth(other internaltypes.FilterTreeResultI) *FilterResult = other.(*FilterResult)
 //@ func (*FilterResult).Extend
-//@   prop C03, C04
+//@   prop C03, C04, C02
 //@   devirt FilterTreeResultI => *FilterResult
 //@   requires f != nil && typeis(other, *FilterResult) && oth(other) != nil && oth(other) != f
 //@   requires flagsOK(f) && flagsOK(oth(other))
